@@ -12,9 +12,11 @@ for NAME in $IDS; do
   WT=/tmp/vmut-$$-$NAME
   git -C /repo worktree add -q --detach $WT HEAD || exit 9
   if ! git -C $WT apply --whitespace=nowarn /verif/seeded/$NAME/patch.diff; then echo "$NAME patch does not apply"; git -C /repo worktree remove --force $WT; miss=1; continue; fi
+  # a seed may name the check(s) that are responsible for it when the machinery splits a property (file CHECKS)
+  [ -f /verif/seeded/$NAME/CHECKS ] && ID=$(head -1 /verif/seeded/$NAME/CHECKS)
   TIER=$(python3 -c "import json;print(json.load(open('/verif/seeded/$NAME/meta.json')).get('caught_tier','quick'))" 2>/dev/null || echo quick)
   out=$(VERIF_REPO=$WT ./run.sh $ID $TIER 2>&1 | grep -v '^badger'); rc=$?
-  if echo "$out" | grep -q "^VIOLATION property=$ID"; then echo "$NAME caught ($TIER): $(echo "$out" | grep -m1 'what:' | cut -c1-200)"; else echo "$NAME MISSED ($TIER): $(echo "$out" | tail -2 | cut -c1-200)"; miss=1; fi
+  if echo "$out" | grep -q "^VIOLATION property=$ID"; then echo "$NAME caught by $ID ($TIER): $(echo "$out" | grep -m1 'what:' | cut -c1-200)"; else echo "$NAME MISSED ($TIER): $(echo "$out" | tail -2 | cut -c1-200)"; miss=1; fi
   git -C /repo worktree remove --force $WT
   rm -rf /verif/.work/*/mut_tmp_vmut-$$-$NAME /verif/bin/*-mut_tmp_vmut-$$-$NAME
 done
